@@ -119,6 +119,14 @@ pub struct PoolCfg {
     /// stub connections answer `is_open() == true` while busy
     #[serde(default)]
     pub open_while_busy: bool,
+    /// fault point (hook H4): the pool's non-blocking lock attempt fails, as if another thread
+    /// held the pool lock (the blocking lock is unaffected)
+    #[serde(default)]
+    pub pool_lock_contended: bool,
+    /// the pooled service is created inside the context of another runtime, which is gone by
+    /// the time the service is used
+    #[serde(default)]
+    pub built_on_other_runtime: bool,
 }
 
 #[derive(Clone, Debug, Serialize, Deserialize)]
@@ -351,6 +359,8 @@ fn gen_cfg(profile: &str, r: &mut Rng) -> PoolCfg {
         timeout_ms,
         max_reqs,
         open_while_busy: matches!(profile, "C02" | "C05" | "C17") && r.chance(1, 3),
+        pool_lock_contended: r.chance(1, 3),
+        built_on_other_runtime: r.chance(1, 4),
     }
 }
 
@@ -1373,7 +1383,10 @@ impl<'a> Run<'a> {
                 .into_iter()
                 .map(|(h2, c)| {
                     let cc = &w.conns[c];
-                    let usable = cc.open && (h2 || (cc.handback_step == Some(cur_step) && cc.idle_since.is_some()));
+                    // (an open connection that vanished in the very step of its hand-back although no
+                    // idle limit can be the reason still counts: a waiter was entitled to it)
+                    let vanished_without_reason = cc.destroyed_step == Some(cur_step) && self.case.cfg.max_idle >= 16;
+                    let usable = cc.open && (h2 || (cc.handback_step == Some(cur_step) && (cc.idle_since.is_some() || vanished_without_reason)));
                     (h2, c, cc.origin.clone(), usable)
                 })
                 .collect()
@@ -1872,8 +1885,36 @@ impl PoolSim {
         let mut gen_rng = Rng::keyed(case.seed, "pool/steps");
         let faulty = Rng::keyed(case.seed, "pool/faulty").below(3) != 0;
         let weights = weights_for(&case.profile, &mut Rng::keyed(case.seed, "pool/weights"), faulty);
+        struct Contended;
+        impl Drop for Contended {
+            fn drop(&mut self) {
+                hyperdriver::verif_hooks::set_pool_lock_contended(false);
+            }
+        }
+        let _contended = Contended;
+        hyperdriver::verif_hooks::set_pool_lock_contended(case.cfg.pool_lock_contended);
+        let w: W = Arc::new(Mutex::new(World::default()));
+        let mut pc = PoolConfig::default();
+        pc.idle_timeout = case.cfg.idle_timeout_ms.map(Duration::from_millis);
+        pc.max_idle_per_host = case.cfg.max_idle;
+        pc.continue_after_preemption = case.cfg.continue_after_preemption;
+        let build = || -> PoolSvc {
+            ConnectionPoolService::new(SimTransport { w: w.clone() }, SimProtocol { w: w.clone() }, RecSvc { w: w.clone(), inner: RequestExecutor::new() }, pc.clone())
+        };
+        let pool_svc: PoolSvc = if case.cfg.built_on_other_runtime {
+            // built while another runtime's context is entered; that runtime is gone before first use
+            let other = simrt::runtime();
+            let svc = {
+                let _g = other.enter();
+                build()
+            };
+            drop(other);
+            svc
+        } else {
+            let _g = rt.enter();
+            build()
+        };
         let (out, steps) = rt.block_on(async {
-            let w: W = Arc::new(Mutex::new(World::default()));
             {
                 let mut ww = w.lock();
                 ww.idle_timeout_ms = case.cfg.idle_timeout_ms;
@@ -1887,16 +1928,6 @@ impl PoolSim {
                     }
                 }
             }
-            let mut pc = PoolConfig::default();
-            pc.idle_timeout = case.cfg.idle_timeout_ms.map(Duration::from_millis);
-            pc.max_idle_per_host = case.cfg.max_idle;
-            pc.continue_after_preemption = case.cfg.continue_after_preemption;
-            let pool_svc: PoolSvc = ConnectionPoolService::new(
-                SimTransport { w: w.clone() },
-                SimProtocol { w: w.clone() },
-                RecSvc { w: w.clone(), inner: RequestExecutor::new() },
-                pc,
-            );
             let svc = match case.cfg.timeout_ms {
                 Some(d) => Svc::Timed(Timeout::new(pool_svc, Duration::from_millis(d), Box::new(timeout_error as fn() -> ClientError))),
                 None => Svc::Plain(pool_svc),
@@ -2083,6 +2114,16 @@ impl Scenario for PoolSim {
         if case.cfg.open_while_busy {
             let mut c = case.clone();
             c.cfg.open_while_busy = false;
+            v.push(c);
+        }
+        if case.cfg.pool_lock_contended {
+            let mut c = case.clone();
+            c.cfg.pool_lock_contended = false;
+            v.push(c);
+        }
+        if case.cfg.built_on_other_runtime {
+            let mut c = case.clone();
+            c.cfg.built_on_other_runtime = false;
             v.push(c);
         }
         if case.cfg.idle_timeout_ms.is_some() {
